@@ -191,6 +191,8 @@ type Heap struct {
 	loopSet *loopFrame // havoc node of a loop header (dry pass): the loop's own frame
 	isLoop bool
 	keepPrivate bool
+	byCall bool // havoc caused by a call (as opposed to a loop frame)
+	keep map[string]bool // havoc: additional keys that survive
 	interf bool // write models interference by another goroutine, not a write of this function
 }
 
@@ -200,6 +202,9 @@ type HeapSpace struct {
 	sorts map[string]string // key -> array sort
 	final map[string]bool   // keys never havocked by calls
 	private map[string]bool // keys only their type's writer methods may change
+	onHavoc func()
+	ignoreCallHavoc bool // evaluate as if calls to unknown code changed nothing (callees preserve invariants)
+	onHavocKey func(string)
 }
 
 func newHeapSpace(c *Ctx) *HeapSpace {
@@ -230,6 +235,9 @@ func (hs *HeapSpace) write(h *Heap, key, val string) *Heap {
 
 // havocAll: every key gets a fresh value, except final keys.
 func (hs *HeapSpace) havocAll(h *Heap) *Heap {
+	if hs.onHavoc != nil {
+		hs.onHavoc()
+	}
 	n := hs.node("havoc")
 	n.parent = h
 	return n
@@ -238,6 +246,11 @@ func (hs *HeapSpace) havocAll(h *Heap) *Heap {
 func (hs *HeapSpace) havocKeys(h *Heap, keys map[string]bool) *Heap {
 	if len(keys) == 0 {
 		return h
+	}
+	if hs.onHavocKey != nil {
+		for k := range keys {
+			hs.onHavocKey(k)
+		}
 	}
 	n := hs.node("havocSome")
 	n.parent = h
@@ -291,7 +304,7 @@ func (hs *HeapSpace) read(h *Heap, key string) string {
 			cur = cur.parent
 			continue
 		case "havoc":
-			if hs.final[key] || (cur.keepPrivate && hs.private[key]) {
+			if hs.final[key] || (cur.keepPrivate && hs.private[key]) || cur.keep[key] || (cur.keep["G.chan.closed"] && strings.HasPrefix(key, "G.chan.closed")) || (hs.ignoreCallHavoc && cur.byCall) {
 				cur = cur.parent
 				continue
 			}
@@ -302,6 +315,9 @@ func (hs *HeapSpace) read(h *Heap, key string) string {
 			cur.memo[key] = v
 			return v
 		case "entry":
+			if strings.HasPrefix(key, "G.defer.") {
+				return "false" // a defer site that was not reached is not armed
+			}
 			if v, ok := cur.memo[key]; ok {
 				return v
 			}
@@ -309,7 +325,7 @@ func (hs *HeapSpace) read(h *Heap, key string) string {
 			cur.memo[key] = v
 			return v
 		case "merge":
-			if v, ok := cur.memo[key]; ok {
+			if v, ok := cur.memo[key]; ok && !hs.ignoreCallHavoc {
 				return v
 			}
 			vals := make([]string, len(cur.preds))
@@ -330,7 +346,9 @@ func (hs *HeapSpace) read(h *Heap, key string) string {
 				}
 				v = hs.c.define("Hm."+key, srt, t)
 			}
-			cur.memo[key] = v
+			if !hs.ignoreCallHavoc {
+				cur.memo[key] = v
+			}
 			return v
 		}
 		panic("bad heap node")
@@ -363,4 +381,15 @@ func keysWritten(h, stop *Heap, out map[string]bool, all *bool, seen map[*Heap]b
 			return
 		}
 	}
+}
+
+// chanClosedGhost: the ghost "closed" state is kept per channel element type
+// (channels of different element types cannot alias).
+func chanClosedGhost(t types.Type) string {
+	if t != nil {
+		if c, ok := t.Underlying().(*types.Chan); ok {
+			return "chan.closed." + typeKey(c.Elem())
+		}
+	}
+	return "chan.closed.any"
 }
